@@ -1,6 +1,7 @@
 //! unit: u02
 //! properties: C02 C08
 //! note: forward admission arithmetic (fee and CLTV) and the timing lemma over the extracted constants
+//! trusted: env: PaymentConstraints {2 fields} skeleton; BlindedHopFeatures opaque with external_body empty()/requires_unknown_bits_from() (unconstrained)
 //! trusted: env: struct UpdateAddHTLC{amount_msat,cltv_expiry}, ChannelConfig{3 fields}, PaymentRelay{3 fields} are field skeletons of the real structs; enum LocalHTLCFailureReason restricted to the 5 variants used; FundedChannel self stub (R5: the body reads no field of self)
 //! assume: cur_height <= 2^31-1 (block heights)
 //! assume: Logger callbacks do not panic (R3)
@@ -111,6 +112,38 @@ pub open spec fn relay_fee(a: int, r: &PaymentRelay) -> int { a * (r.fee_proport
     (post_base_fee_inbound_amt * 1_000_000) / (prop + 1_000_000)
 //@with
     (post_base_fee_inbound_amt * 1_000_000 + prop) / (prop + 1_000_000)
+//@end
+
+// ---- blinded forwards: constraints and the (amount, expiry) handed downstream ----
+pub struct PaymentConstraints { pub max_cltv_expiry: u32, pub htlc_minimum_msat: u64 }
+pub struct BlindedHopFeatures {}
+impl BlindedHopFeatures {
+    #[verifier::external_body] pub fn empty() -> BlindedHopFeatures { unimplemented!() }
+    #[verifier::external_body] pub fn requires_unknown_bits_from(&self, other: &BlindedHopFeatures) -> bool { unimplemented!() }
+}
+//@extract lightning/src/ln/onion_payment.rs :: fn check_blinded_payment_constraints
+//@ret r
+//@ensures A blinded-payment-constraints-are-exactly-minimum-amount-and-maximum-expiry
+    r is Ok <==> (amt_msat >= constraints.htlc_minimum_msat && cltv_expiry <= constraints.max_cltv_expiry)
+//@mutant minimum_not_enforced
+    amt_msat < constraints.htlc_minimum_msat ||
+//@with
+    amt_msat + 1 < constraints.htlc_minimum_msat ||
+//@end
+//@extract lightning/src/ln/onion_payment.rs :: fn check_blinded_forward
+//@strip blinded_path payment
+//@ret r
+//@ensures P C02 blinded-forward-offers-downstream-no-more-than-received-less-the-relay-fee-and-exactly-the-cltv-delta-less
+    r is Ok ==> ({
+        let (a, c) = r->Ok_0;
+        &&& a > 0 && a as int + relay_fee(a as int, payment_relay) <= inbound_amt_msat
+        &&& c as int + payment_relay.cltv_expiry_delta as int == inbound_cltv_expiry
+        &&& inbound_amt_msat >= payment_constraints.htlc_minimum_msat && inbound_cltv_expiry <= payment_constraints.max_cltv_expiry
+    }),
+//@mutant cltv_delta_not_subtracted
+    inbound_cltv_expiry.checked_sub( payment_relay.cltv_expiry_delta as u32 )
+//@with
+    inbound_cltv_expiry.checked_sub( 0 as u32 )
 //@end
 }
 fn main() {}
